@@ -17,8 +17,9 @@
 //	(iii) aliasing: no *Entry, *ListAttr, *RPCEntry object and no backing array of Default, of an
 //	      Extra value slice or of Exts is reachable twice from the module trees, submodule trees
 //	      and cached grouping entries; instances not
-//	      touched by the mutation, and all grouping entries, are identical in the base run and in
-//	      the mutated run; changing one instance directly through the exported fields leaves every
+//	      touched by the mutation, and all grouping entries, are identical (full canonical type dump
+//	      included) in the base run and in the mutated run, and so is the resolved YangType of every
+//	      type statement of the text (every copy of a leaf shares that object); changing one instance directly through the exported fields leaves every
 //	      independent instance and every grouping entry unchanged; a module loaded afterwards that
 //	      uses a grouping once more gets a faithful copy.
 //
@@ -632,16 +633,72 @@ func checkDirect(k know, ms *yang.Modules, ix astIndex, f findings) {
 
 func sortedKeys[V any](m map[string]V) []string { return lib.SortedKeys(m) }
 
+// walkAll visits every AST node below n (every field that holds nodes, except the links out of
+// the (sub)module: Parent, Module, Modules).
+func walkAll(n yang.Node, seen map[yang.Node]bool, f func(yang.Node)) {
+	if n == nil || reflect.ValueOf(n).Kind() != reflect.Ptr || reflect.ValueOf(n).IsNil() || seen[n] {
+		return
+	}
+	seen[n] = true
+	f(n)
+	v := reflect.ValueOf(n).Elem()
+	if v.Kind() != reflect.Struct {
+		return
+	}
+	t := v.Type()
+	for i := 0; i < t.NumField(); i++ {
+		switch t.Field(i).Name {
+		case "Parent", "Module", "Modules", "Source", "Extensions", "YangType":
+			continue
+		}
+		if !t.Field(i).IsExported() {
+			continue
+		}
+		fv := v.Field(i)
+		switch fv.Kind() {
+		case reflect.Ptr, reflect.Interface:
+			if !fv.IsNil() {
+				if c, ok := fv.Interface().(yang.Node); ok {
+					walkAll(c, seen, f)
+				}
+			}
+		case reflect.Slice:
+			for j := 0; j < fv.Len(); j++ {
+				if c, ok := fv.Index(j).Interface().(yang.Node); ok {
+					walkAll(c, seen, f)
+				}
+			}
+		}
+	}
+}
+
+// typeDumps renders the resolved YangType attached to every `type` statement of the loaded text
+// (leaf, leaf-list, typedef, union member, deviate), keyed by the statement's position. Entries
+// share these objects (dup copies the pointer): that is how goyang works, but then nothing may
+// ever write into them.
+func typeDumps(ms *yang.Modules) map[string]string {
+	out := map[string]string{}
+	seen := map[yang.Node]bool{}
+	for _, m := range allModules(ms) {
+		walkAll(m, seen, func(n yang.Node) {
+			if t, ok := n.(*yang.Type); ok && t.YangType != nil {
+				out[t.Statement().Location()] = lib.DumpYangType(t.YangType)
+			}
+		})
+	}
+	return out
+}
+
 // checkAgainstBase: instances the mutation does not reach, and every grouping entry, are the
 // same as in a run of the set without the mutation.
-func checkAgainstBase(c rescorr.Case, k know, ms *yang.Modules, ix astIndex, f findings) {
+func checkAgainstBase(c rescorr.Case, k know, ms *yang.Modules, ix astIndex, f findings) *astIndex {
 	base := rescorr.Case{Names: k.BaseNames, Texts: k.BaseTexts, IgnoreCircular: c.IgnoreCircular, IgnoreNotSupported: c.IgnoreNotSupported}
 	bms, err := rescorr.Load(base)
 	if err != nil {
-		return
+		return nil
 	}
 	if errs := bms.Process(); len(errs) > 0 {
-		return
+		return nil
 	}
 	bix := indexAST(bms)
 	bs, ms2 := siteDumps(bms, k.Sites), siteDumps(ms, k.Sites)
@@ -657,13 +714,24 @@ func checkAgainstBase(c rescorr.Case, k know, ms *yang.Modules, ix astIndex, f f
 	bg, mg := groupingDumps(bix), groupingDumps(ix)
 	for _, l := range sortedKeys(bg) {
 		if bg[l] != mg[l] {
-			f.add("independence: the cached entry of the grouping at %s differs from the run without augments and deviations", l)
+			f.add("independence: the cached entry of the grouping at %s differs from the run without augments and deviations: %s", l,
+				firstDiff([]string{mg[l]}, []string{bg[l]}))
 		}
 	}
+	// the resolved types hang on the text's type statements and are shared by every copy: an augment
+	// or deviation must not have written into any of them
+	bt, mt := typeDumps(bms), typeDumps(ms)
+	for _, l := range sortedKeys(bt) {
+		if m, ok := mt[l]; ok && m != bt[l] {
+			f.add("aliasing: the resolved type of the type statement at %s, which every copy of that leaf shares, was written to: after the augments and deviations vs without them: %s",
+				l, firstDiff([]string{m}, []string{bt[l]}))
+		}
+	}
+	return &bix
 }
 
 // checkLate: a module loaded after Process that uses a grouping once more gets a faithful copy.
-func checkLate(k know, ms *yang.Modules, f findings) {
+func checkLate(k know, ms *yang.Modules, f findings, bix *astIndex) {
 	if k.Late == nil {
 		return
 	}
@@ -684,6 +752,13 @@ func checkLate(k know, ms *yang.Modules, f findings) {
 	}
 	if d := firstDiff(contributed(e, k.Late.Names, true, false), contributed(yang.ToEntry(g), k.Late.Names, true, false)); d != "" {
 		f.add("late use: the instance created after the first Process differs from the grouping's own entry: %s", d)
+	}
+	if bix != nil {
+		if bg := bix.groupings[k.Late.GLoc]; bg != nil {
+			if d := firstDiff(contributed(e, k.Late.Names, true, false), contributed(yang.ToEntry(bg), k.Late.Names, true, false)); d != "" {
+				f.add("late use: the instance created after the augments and deviations were processed differs from the grouping's own entry in the run without them: %s", d)
+			}
+		}
 	}
 	checkSharing(ms, ix, f)
 }
@@ -798,11 +873,12 @@ func oracle(c rescorr.Case, ms *yang.Modules, errs []error, out *rescorr.GoOut) 
 		checkExpansion(k, ms, f)
 	}
 	checkSharing(ms, ix, f)
+	var bix *astIndex
 	if mut {
-		checkAgainstBase(c, k, ms, ix, f)
+		bix = checkAgainstBase(c, k, ms, ix, f)
 	}
 	checkDirect(k, ms, ix, f)
-	checkLate(k, ms, f)
+	checkLate(k, ms, f, bix)
 }
 
 func main() {
@@ -830,6 +906,7 @@ func main() {
 	}
 	siteKinds := map[string]int64{}
 	mutKinds := map[string]int64{}
+	mutProps := map[string]int64{}
 	var maxNest int
 	var extrasNodes, extrasUses, capSensitive int64
 	distinct := lib.NewDistinct()
@@ -849,11 +926,21 @@ func main() {
 				Names        []string     `json:"names"`
 				Texts        []string     `json:"texts"`
 				ExpectExtras []gen.C06Rec `json:"expect_extras"`
+				// a witness for the base run / mutated run comparison: variant "mut", the base
+				// variant's files, the instance sites (Touched = named by the augment / deviation)
+				Variant   string        `json:"variant"`
+				BaseNames []string      `json:"base_names"`
+				BaseTexts []string      `json:"base_texts"`
+				Sites     []gen.C06Site `json:"sites"`
 			}
 			if err := json.Unmarshal(raw, &cc); err != nil || len(cc.Names) == 0 {
 				lib.Fatal("corpus file %s: %v", p, err)
 			}
-			kb, _ := json.Marshal(know{Variant: "corpus", ExpectExtras: cc.ExpectExtras})
+			kn := know{Variant: "corpus", ExpectExtras: cc.ExpectExtras}
+			if cc.Variant == "mut" {
+				kn = know{Variant: "mut", Sites: cc.Sites, BaseNames: cc.BaseNames, BaseTexts: cc.BaseTexts}
+			}
+			kb, _ := json.Marshal(kn)
 			cases = append(cases, rescorr.Case{Names: cc.Names, Texts: cc.Texts, Extra: map[string]string{"c06": string(kb), "origin": "corpus/" + filepath.Base(p)}})
 		}
 		for _, o := range rescorr.RunAll(cases, f) {
@@ -931,6 +1018,9 @@ func main() {
 				for _, k := range gc.MutKinds {
 					mutKinds[k]++
 				}
+				for _, k := range gc.MutProps {
+					mutProps[k]++
+				}
 				km, _ := json.Marshal(know{Variant: "mut", Uses: gc.Uses, Sites: gc.Sites, BaseNames: gc.Names, BaseTexts: gc.Texts, Late: gc.Late})
 				cases = append(cases, rescorr.Case{Names: gc.MutNames, Texts: gc.MutTexts, Extra: map[string]string{"c06": string(km)}})
 				metas = append(metas, meta{"mut", len(gc.Sites), multi, unt, gc})
@@ -996,7 +1086,7 @@ func main() {
 		"frequent, nested uses, typedef t and identity idn defined per module so that resolving in the wrong scope shows, every reachable " +
 		"grouping given at least two instances; nodes, groupings and uses statements carrying 0-4 if-feature and extension statements - three " +
 		"being the case in which append leaves one spare slot - and when / status / reference / description), each as a base variant and as a variant in which one or two instances are changed by augments " +
-		"and deviations (not-supported, add, replace, delete); distinct_nontrivial = distinct variants (by text) that process cleanly and " +
+		"and deviations (not-supported; add, replace, delete of every property: units, default, type, config, mandatory, min/max-elements); distinct_nontrivial = distinct variants (by text) that process cleanly and " +
 		"contain a grouping with at least two instances, i.e. on which the copy, sharing and independence oracles actually compare instances"
 	res.Distribution["nodes_with_predicted_Extra_or_Exts"] = extrasNodes
 	res.Distribution["uses_statements_with_extras"] = extrasUses
@@ -1012,6 +1102,7 @@ func main() {
 	res.Distribution["untouched_instances_compared_with_base_run"] = untouchedChecked
 	res.Distribution["uses_by_definition_site"] = siteKinds
 	res.Distribution["mutations_by_kind"] = mutKinds
+	res.Distribution["deviate_properties_written(kind target property)"] = mutProps
 	res.Distribution["deepest_chain_of_nested_uses"] = maxNest
 	res.Write(f.Out)
 }
